@@ -7,7 +7,9 @@ From Dimod Require Import Base.Util Model.Poly Model.Samples Model.SSet.
 Import ListNotations.
 Open Scope Qc_scope.
 
-Inductive obj := OModel (p : poly) | OSet (s : sset).
+(* a CQM: its objective and its labelled constraint left-hand sides (what a model handed to
+   add_constraint / set_objective becomes part of) *)
+Inductive obj := OModel (p : poly) | OSet (s : sset) | OCqm (objective : poly) (cons : list (nat * poly)).
 Definition heap := list obj.
 
 (* copy-producing calls *)
@@ -106,7 +108,15 @@ Fixpoint hset (h : heap) (i : nat) (o : obj) : heap :=
   | x :: r, S j => x :: hset r j o
   end.
 
-Inductive hop := HNew (o : obj) | HCopy (src : nat) (c : cop) | HEdit (i : nat) (e : iop).
+Inductive hop :=
+| HNew (o : obj)
+| HCopy (src : nat) (c : cop)
+| HEdit (i : nat) (e : iop)
+(* cqm.add_constraint_from_model / add_constraint(comparison) / add_discrete*(...) with a live model:
+   copy=True stores a copy, copy=False MOVES the model in and leaves the caller's model empty *)
+| HAddConstraint (ci mi lbl : nat) (copy : bool)
+(* cqm.set_objective(model): always copies *)
+| HSetObjective (ci mi : nat).
 
 Definition hstep (K : lkeys) (h : heap) (o : hop) : heap :=
   match o with
@@ -116,6 +126,37 @@ Definition hstep (K : lkeys) (h : heap) (o : hop) : heap :=
                    | None => h
                    end
   | HEdit i e => match nth_error h i with Some x => hset h i (apply_iop K e x) | None => h end
+  | HAddConstraint ci mi lbl copy =>
+      match nth_error h ci, nth_error h mi with
+      | Some (OCqm ob cs), Some (OModel p) =>
+          let h1 := hset h ci (OCqm ob (cs ++ [(lbl, p)])) in
+          if copy then h1 else hset h1 mi (OModel pzero)
+      | _, _ => h
+      end
+  | HSetObjective ci mi =>
+      match nth_error h ci, nth_error h mi with
+      | Some (OCqm ob cs), Some (OModel p) => hset h ci (OCqm p cs)
+      | _, _ => h
+      end
+  end.
+
+(* the expression views of a CQM are read from the CQM's own cell *)
+Definition cqm_objective (h : heap) (ci : nat) : option poly :=
+  match nth_error h ci with Some (OCqm ob _) => Some ob | _ => None end.
+Definition cqm_constraint (h : heap) (ci lbl : nat) : option poly :=
+  match nth_error h ci with
+  | Some (OCqm _ cs) => option_map snd (find (fun c => (fst c =? lbl)%nat) cs)
+  | _ => None
   end.
 
 Definition hrun (K : lkeys) (h : heap) (ops : list hop) : heap := fold_left (hstep K) ops h.
+
+(* the spin / binary views of a BQM as the view function of Model/Store.v: a model is its variable
+   list and its polynomial; view kind 0 = .spin of a BINARY model, 1 = .binary of a SPIN model *)
+Definition mstate := (list label * poly)%type.
+Definition model_viewfn (w : nat) (m : mstate) : mstate :=
+  match w with
+  | O => (fst m, b2s (fst m) (snd m))
+  | S O => (fst m, s2b (fst m) (snd m))
+  | _ => m
+  end.
